@@ -14,7 +14,7 @@ class StopRun(BaseException):
 
 
 def parse_disc(w):
-    return {"f": "f" in w, "c": "c" in w, "d": "d" in w}
+    return {"f": "f" in w, "c": "c" in w, "d": "d" in w, "w": "w" in w}
 
 
 def parse_script(s):
@@ -139,6 +139,14 @@ def run_real(line):
         if disc_flag("f"):
             ev.append(f"disconnect()@{rel()}")
             cl.disconnect()
+    def sleep_hook(secs):
+        # disconnect() from another thread while loop_forever() sleeps in the back-off wait after this attempt
+        if disc_flag("w") and not slept.get(idx["i"]):
+            slept[idx["i"]] = True
+            ev.append(f"disconnect()@{rel()}")
+            c.disconnect()
+    slept = {}
+    w.sleep_hook = sleep_hook
     c.on_connect = on_connect
     c.on_disconnect = on_disconnect
     c.on_connect_fail = on_connect_fail
@@ -157,7 +165,7 @@ def run_real(line):
 
 
 def rand_disc(rng, p=0.12):
-    return "".join(ch for ch in "fcd" if rng.random() < p) or "-"
+    return "".join(ch for ch in "fcdw" if rng.random() < (p if ch != "w" else p / 2)) or "-"
 
 
 class LFStream:
@@ -254,6 +262,8 @@ class LFStream:
                     it = script[ai] if 0 <= ai < len(script) else None
                     if it and it[0] != "down" and it[-1]["d"]:
                         disc_called = True
+                elif e.startswith("disconnect()@"):
+                    disc_called = True
                 elif e == "script-end" and disc_called:
                     hits.append((i, "no-return-after-disconnect", f"loop_forever() kept going after disconnect(): {o[:200]}"))
             if disc_called and not any(e.startswith(("ret:", "exc:")) for e in evs) and "script-end" not in evs:
